@@ -163,8 +163,9 @@ def gen_spec(rng, n_zones=None, allow_fed=True, ext=None, maxtime=None, grid=Tru
         cands = [(z['cur'], c) for z in zones for c in z['countries'] if c['role'] != 'central']
         for _ in range(rng.choice([0, 1, 2, 2])):
             (ca, a), (cb, b) = rng.choice(cands), rng.choice(cands)
-            if ca == cb or b['firm']['form'] != 'multi':
+            if ca == cb:
                 continue
+            # a single-output firm can also export: the market then declares the supply variable on it
             if any(i['market'] == a['key'] and i['supplier'] == b['key'] for i in spec['imports']):
                 continue
             imp = {'market': a['key'], 'supplier': b['key'], 'mu': rng.choice([0.05, 0.1, 0.2])}
@@ -486,7 +487,8 @@ def add_import(b, imp, code, ckey_map):
         market.AddVariable('HS', 'Share of demand supplied at home', repr(imp['home_share']))
         market.AddSupplier(home, 'HS*DEM_' + market.Code)
         market.AddSupplier(firm)          # no equation: the foreign firm is the residual supplier
-        firm.AddMarket(market)
+        if hasattr(firm, 'AddMarket'):
+            firm.AddMarket(market)
         b.flows.append({'kind': 'import', 'market': market, 'supplier': firm, 'mu': None, 'spec': imp})
         return
     if 'MU' not in market.EquationBlock:
@@ -498,7 +500,8 @@ def add_import(b, imp, code, ckey_map):
     inc = hh.GetVariableName('INC')
     b.names_handed.append((inc, hh, 'INC'))
     market.AddSupplier(firm, '%s*%s' % (muvar, inc))
-    firm.AddMarket(market)
+    if hasattr(firm, 'AddMarket'):
+        firm.AddMarket(market)
     b.flows.append({'kind': 'import', 'market': market, 'supplier': firm, 'mu': imp['mu'], 'spec': imp})
 
 
